@@ -20,7 +20,7 @@ from .dflow import DCheck, one_violation
 PROFILE = {
     "max_stages": 6, "joins": ["AND", "AND", "DISCRIMINATOR", "N_OF_M", "OR"],
     "behaviours": {"ok": 10, "fail_terminal": 2, "fail_continue": 2, "poller": 2, "transient": 2, "exc": 2},
-    "synth_p": 0.25, "loop_p": 0.3, "or_split_p": 0.15, "cof_p": 0.2, "disabled_p": 0.08, "builder_tasks_p": 0.2,
+    "synth_p": 0.25, "synth_fail_p": 0.25, "loop_p": 0.3, "or_split_p": 0.15, "cof_p": 0.2, "disabled_p": 0.08, "builder_tasks_p": 0.2,
     "max_jumps": [None, 0, 1, 3], "fwd_jump_p": 0.35,
 }
 
